@@ -9,6 +9,7 @@ CONSTANTS
   InitStores <- CollStores
   PublishAfterUnlock = FALSE
   CreatedRevalidated = TRUE
+  DeleteHoldsLock = TRUE
   Equiv = "coll-keep"
   SubSer = FALSE
   MayCancel = FALSE
